@@ -29,7 +29,7 @@
   decidable predicate `SupportedBy` (Spec/RRuleSupported.lean; driver op `rrule.supported`).
   Missing: MINUTELY with BYHOUR and SECONDLY with BYHOUR / BYMINUTE / BYSECOND (the reachability
   loops `minutelyLoop` / `secondlyLoop` beyond their first pass are only proved monotone), BYWEEKNO / BYEASTER
-  under MONTHLY / WEEKLY (BYWEEKNO under DAILY..SECONDLY is covered) and BYEASTER outside YEARLY, nth BYDAY with plain BYDAY (all of it inside D-C01a), BYWEEKNO with BYEASTER or
+  under WEEKLY (BYWEEKNO under MONTHLY and DAILY..SECONDLY is covered) and BYEASTER outside YEARLY, nth BYDAY with plain BYDAY (all of it inside D-C01a), BYWEEKNO with BYEASTER or
   nth BYDAY.  Everything else below — including
   `iter_strictMono` for all seven frequencies — is proved for ALL rules / all argument sets, with no
   `Supported` hypothesis (so also inside the known-defect classes).
@@ -51,6 +51,7 @@ import DateutilVerif.Proofs.RRuleSecondly
 import DateutilVerif.Proofs.RRuleSupported
 import DateutilVerif.Proofs.RRuleAmbient
 import DateutilVerif.Proofs.RRuleDailyW
+import DateutilVerif.Proofs.RRuleMonthlyW
 
 namespace C01
 open RRule Cal RRule.Tables
@@ -439,6 +440,14 @@ theorem iter_eq_spec_yearly_weekno_partial (a : Args) (r : Rule) (wa : WeeknoYAr
     (iter r n).1 = Spec.RRule.occ a n :=
   iter_eq_spec_yearly_weekno wa h n hy
 
+/-- **`iter_eq_spec`, proved portion, MONTHLY with BYWEEKNO** on the complement of D-C01c: INTERVAL ≥ 1, valid start,
+    week start 0..6, any BYMONTH / BYMONTHDAY (non-zero) / BYYEARDAY / plain BYDAY / time parts / BYSETPOS, any COUNT /
+    UNTIL, no nth BYDAY / BYEASTER. -/
+theorem iter_eq_spec_monthly_weekno_partial (a : Args) (r : Rule) (wa : WeeknoMArgs a) (h : construct a = .ok r)
+    (n : Nat) (hm : (a.dtstart.y * 12 + (a.dtstart.m - 1) + n * a.interval) / 12 ≤ 9999) :
+    (iter r n).1 = Spec.RRule.occ a n :=
+  iter_eq_spec_monthly_weekno wa h n hm
+
 /-- **`iter_eq_spec`, proved portion, DAILY with BYWEEKNO** — and the same extension holds in the five sub-daily
     theorems below: their argument classes (`HourlyArgs`, `HourlyByArgs`, `MinutelyArgs`, `MinutelyByArgs`,
     `SecondlyArgs`) take `WArg a`: BYWEEKNO absent, or a non-empty list on the complement of D-C01c (a listed
@@ -646,6 +655,10 @@ example : ((match construct { freq := 4, dtstart := dt 2024 1 1 9, interval := 7
 example : MinutelyByArgs { freq := 5, dtstart := dt 2024 1 1 9, interval := 25, byminute := some [0, 30] } :=
   ⟨rfl, by decide, by decide, Or.inl rfl, rfl, by intro x hx; simp at hx, rfl, ⟨[0, 30], rfl, by decide⟩,
    by intro x hx; simp at hx⟩
+-- a WeeknoMArgs instance: the Mondays of weeks 10 and 20, scanned month by month
+example : WeeknoMArgs { freq := 1, dtstart := dt 2024 1 1 9, byweekno := some [10, 20], byweekday := some [(0, 0)] } :=
+  ⟨rfl, by decide, by decide, by decide, by intro x hx; simp at hx, rfl, by decide,
+   ⟨[10, 20], rfl, by decide, ⟨by decide, by decide⟩⟩⟩
 -- a DailyWArgs instance: every day of ISO week 1 and of the last week of the year
 example : DailyWArgs { freq := 3, dtstart := dt 2024 12 1 9, byweekno := some [1, -1] } :=
   ⟨rfl, by decide, by decide, Or.inr ⟨[1, -1], rfl, by decide, ⟨by decide, by decide⟩, by decide, by decide⟩, rfl,
